@@ -136,9 +136,8 @@ func (ex *Exec) dagVertexIface(st *State, d *Object, key *Term) Value {
 			}
 		}
 	}
-	id := ex.G.FreshInt("vrx_iface", types.Typ[types.Int64])
-	ex.G.facts[id.Name] = append(ex.G.facts[id.Name], Gt(id, IntC(0)))
-	return &IfaceV{ID: id, Dyn: vt, Val: &PtrV{Nil: TFalse, Obj: o}}
+	ex.ifaceN++
+	return &IfaceV{ID: IntC(20000000 + ex.ifaceN), Dyn: vt, Val: &PtrV{Nil: TFalse, Obj: o}}
 }
 
 func strArg(ex *Exec, st *State, v Value) *Term {
@@ -387,17 +386,30 @@ func init() {
 					return res
 				}
 				// A3: the closure's writes are committed iff it returned nil and the commit succeeded
-				commitFail := Var(ex.G.name("commit_conflict"), SBool)
-				closureFail := Neq(e.ID, IntC(0))
-				fail := Or(closureFail, commitFail)
 				hasN, _ := s.Ghost[hk].(*Term)
 				valN, _ := s.Ghost[vk].(*Term)
-				s.Ghost[hk] = iteArr(fail, has0, hasN)
-				s.Ghost[vk] = iteArr(fail, val0, valN)
-				cid := ex.G.FreshInt("commit_err", types.Typ[types.Int64])
-				ex.G.facts[cid.Name] = append(ex.G.facts[cid.Name], Gt(cid, IntC(0)))
-				out := &IfaceV{ID: Ite(closureFail, e.ID, Ite(commitFail, cid, IntC(0))), JoinOf: e.JoinOf}
-				return out
+				closureFail := Neq(e.ID, IntC(0))
+				switch s.Decide(closureFail) {
+				case 1:
+					s.Ghost[hk], s.Ghost[vk] = has0, val0
+					return e
+				case 0:
+					// undecided: keep one symbolic state
+					commitFail := Var(ex.G.name("commit_conflict"), SBool)
+					fail := Or(closureFail, commitFail)
+					s.Ghost[hk] = iteArr(fail, has0, hasN)
+					s.Ghost[vk] = iteArr(fail, val0, valN)
+					cid := ex.G.FreshInt("commit_err", types.Typ[types.Int64])
+					ex.G.facts[cid.Name] = append(ex.G.facts[cid.Name], Gt(cid, IntC(0)))
+					return &IfaceV{ID: Ite(closureFail, e.ID, Ite(commitFail, cid, IntC(0))), JoinOf: e.JoinOf, Lib: e.Lib && len(e.JoinOf) == 0}
+				}
+				// the closure returned nil: the commit either succeeds (nil) or fails with a library error
+				commitFail := Var(ex.G.name("commit_conflict"), SBool)
+				s.Ghost[hk] = iteArr(commitFail, has0, hasN)
+				s.Ghost[vk] = iteArr(commitFail, val0, valN)
+				cerr := ex.errValue(commitFail, "commit_err")
+				cerr.Lib = true
+				return cerr
 			}
 			nf.CalleeName = name
 			nf.CallArgs = args
